@@ -613,6 +613,8 @@ func ruleEBoundsLoop(p *Program, r *Reporter) {
 			switch {
 			case okAny:
 				r.OK(blockPos(h), key, whys[0])
+			case descendsSyntaxTree(h, body):
+				r.OK(blockPos(h), key, "every round replaces the node being looked at by one of its own children (and leaves by return or break otherwise): bounded by the depth of the expression")
 			case writesOutput(h, body):
 				r.OK(blockPos(h), key, "writes one output element per iteration: bounded by the size of the result it builds")
 			case len(exits) == 0:
@@ -622,6 +624,89 @@ func ruleEBoundsLoop(p *Program, r *Reporter) {
 			}
 		}
 	}
+}
+
+// descendsSyntaxTree: the loop header merges a parser.Node variable, and every value it receives over a back edge is a
+// child (a field, an element of a field) of that same variable's current value: the loop walks down the syntax tree.
+// Every back edge must carry such a step.
+func descendsSyntaxTree(h *ssa.BasicBlock, body map[*ssa.BasicBlock]bool) bool {
+	var childOf func(v ssa.Value, root *ssa.Phi, depth int) bool
+	childOf = func(v ssa.Value, root *ssa.Phi, depth int) bool {
+		if depth > 8 {
+			return false
+		}
+		switch x := v.(type) {
+		case *ssa.UnOp:
+			if x.Op != token.MUL {
+				return false
+			}
+			switch a := x.X.(type) {
+			case *ssa.FieldAddr:
+				return under(a.X, root, depth+1)
+			case *ssa.IndexAddr:
+				return childOf(a.X, root, depth+1) || under(a.X, root, depth+1)
+			}
+		case *ssa.Field:
+			return under(x.X, root, depth+1)
+		case *ssa.Phi:
+			// a merge of children (several cases of a switch assign the variable before the back edge)
+			if len(x.Edges) == 0 || x == root {
+				return false
+			}
+			for _, e := range x.Edges {
+				if !childOf(e, root, depth+1) {
+					return false
+				}
+			}
+			return true
+		}
+		return false
+	}
+	for _, in := range h.Instrs {
+		ph, ok := in.(*ssa.Phi)
+		if !ok {
+			break
+		}
+		if !isNodeType(ph.Type()) {
+			continue
+		}
+		back, good := 0, true
+		for i, e := range ph.Edges {
+			if !body[h.Preds[i]] {
+				continue
+			}
+			back++
+			if !childOf(e, ph, 0) {
+				good = false
+			}
+		}
+		if back > 0 && good {
+			return true
+		}
+	}
+	return false
+}
+
+// under: v is the node variable root itself seen through type assertions, field selections and loads.
+func under(v ssa.Value, root *ssa.Phi, depth int) bool {
+	if depth > 8 {
+		return false
+	}
+	switch x := v.(type) {
+	case *ssa.Phi:
+		return x == root
+	case *ssa.TypeAssert:
+		return under(x.X, root, depth+1)
+	case *ssa.Extract:
+		return under(x.Tuple, root, depth+1)
+	case *ssa.FieldAddr:
+		return under(x.X, root, depth+1)
+	case *ssa.UnOp:
+		return x.Op == token.MUL && under(x.X, root, depth+1)
+	case *ssa.Field:
+		return under(x.X, root, depth+1)
+	}
+	return false
 }
 
 func sortBlocks(bs []*ssa.BasicBlock) {
